@@ -101,6 +101,7 @@ type interpreter struct {
 	curStack  []*frame
 	funcs     map[*ssa.Function]int
 	built     map[*ssa.Package]bool
+	panicStack []string
 }
 
 type deferred struct {
@@ -122,6 +123,7 @@ type frame struct {
 	panicking        bool
 	panic            any
 	phitemps         []value // temporaries for parallel phi assignment
+	cur              ssa.Instruction
 }
 
 func (fr *frame) get(key ssa.Value) value {
@@ -606,6 +608,16 @@ func runFrame(fr *frame) {
 		if pa, ok := fr.panic.(pathAbort); ok {
 			panic(pa)
 		}
+		if fr.i.panicStack == nil {
+			// remember where the target program was when it first panicked
+			for f := fr; f != nil && len(fr.i.panicStack) < 30; f = f.caller {
+				pos := ""
+				if f.cur != nil {
+					pos = fr.i.prog.Fset.Position(f.cur.Pos()).String()
+				}
+				fr.i.panicStack = append(fr.i.panicStack, f.fn.String()+" "+pos)
+			}
+		}
 		if fr.i.mode&EnableTracing != 0 {
 			fmt.Fprintf(os.Stderr, "Panicking: %T %v.\n", fr.panic, fr.panic)
 		}
@@ -627,6 +639,7 @@ func runFrame(fr *frame) {
 					fmt.Fprintln(os.Stderr, "\t", instr)
 				}
 			}
+			fr.cur = instr
 			fr.i.ps.steps++
 			if fr.i.ps.steps > fr.i.ex.StepBudget {
 				panic(pathAbort{"budget", "step budget exceeded in " + fr.fn.String()})
